@@ -111,7 +111,12 @@ def gen_blocks(rng, targets, model):
              'stability': rng.choice([None, None, 'Stable', 'Unstable', 'Private']), 'attr': rng.random() < 0.5, 'skip': rng.random() < 0.1, 'anns': []}
         anns = []
         if b['attr']:
-            anns.append('(attributes vt.id=%d vt.kind=%s)' % (bid, kind))
+            if bid % 2 == 0:
+                # a value that itself contains '='
+                b['attr_url'] = 'https://example.org/doc?sym=%d&k==v' % bid
+                anns.append('(attributes vt.id=%d vt.kind=%s vt.url=%s)' % (bid, kind, b['attr_url']))
+            else:
+                anns.append('(attributes vt.id=%d vt.kind=%s)' % (bid, kind))
         if b['skip'] and kind not in ('member',):
             anns.append('(skip)')
         else:
@@ -353,6 +358,11 @@ def judge(model, blocks, gir):
         if missing:
             out.append(('lost:%s:%s' % (b['kind'], sorted(missing)[0]), 'block "%s" (id %d): %s not on its %s element (found %s)' % (
                 b['ident'], bid, sorted(missing), n.tag, sorted(got))))
+        if b.get('attr_url') and 'attribute' in got:
+            urls = [c.get('value') for c in n.children if c.tag == 'attribute' and c.get('name') == 'vt.url']
+            hits['specific:attribute-value-with-equals'] += 1
+            if urls != [b['attr_url']]:
+                out.append(('annotation:attributes:value', 'block "%s": attribute vt.url=%r, annotated %r' % (b['ident'], urls, b['attr_url'])))
         if b['stability'] and not (n.tag == 'virtual-method' and n.get('invoker')) and n.get('stability') != b['stability']:
             out.append(('lost:%s:stability' % b['kind'], 'block "%s": stability=%r, written %r' % (b['ident'], n.get('stability'), b['stability'])))
         if b.get('role'):
